@@ -178,6 +178,20 @@ structure FieldWrite where
   what : String
 deriving Repr
 
+/-- a method whose calls acting on its receiver run inside `recv.<once>.Do(func(){…})` (`inside`) or not (`outside`) -/
+structure OnceFact where
+  id : Nat
+  fn : String
+  once : String
+  inside : Nat
+  outside : Nat
+  pos : String
+deriving Repr
+
+/-- every required method has a fact saying that all its receiver effects sit inside the `sync.Once` closure -/
+def onceOkB (required : List String) (facts : List OnceFact) : Bool :=
+  required.all fun f => facts.any fun r => r.fn == f && r.outside == 0 && decide (0 < r.inside)
+
 /-- something the extractor refused to interpret -/
 structure Unknown where
   id : Nat
